@@ -135,11 +135,13 @@ void h_has_tasks_none(void) {
 /* ---------------------------------------------------------------- the heap's ordering function */
 /* ALL pairs of heap slots (same slot, two slots with the same task, different tasks) and ALL 64-bit time stamps (the
  * arena tasks' fields are arbitrary).  Unbounded: the function is loop-free, nothing is cut down. */
+uint64_t r_ta, r_tb; /* replay variables: copies of the two time stamps (read back from a counterexample trace by the driver) */
 void h_compare_timestamps(void) {
     TS_GHOSTS(); ts_build();
     size_t i = nondet_size_t(), j = nondet_size_t();
     __CPROVER_assume(i < TSK && j < TSK);
     uint64_t ta = g_tk[i].timestamp, tb = g_tk[j].timestamp;
+    r_ta = ta; r_tb = tb;
     int r = s_compare_timestamps(&g_q_slot[i], &g_q_slot[j]);
     if (i == j) CANARY("same slot");
     else if (ta == tb) CANARY("two tasks of equal time");
